@@ -374,6 +374,14 @@ F_C04_step(cfg, pre, post) ==
                             pre.nodes[s.n].srv[b].id = s.s => pre.nodes[s.n].srv[b].cust = 0
           IN s.n \in 1..NN(pre) /\
              IF mine = {} THEN wasFree ELSE post.steps[SetMax(mine)].k = "detach")
+    \cup Chk("C04.attach-only-present-server", \A a \in IdxOf(post, "attach") :
+          \* the server belongs to the node: it is there after the event, or was there before and is removed later in it
+          LET s == post.steps[a]
+          IN s.n \in 1..NN(post) /\ FiniteServers(cfg, post, s.n) =>
+                \/ \E b \in DOMAIN post.nodes[s.n].srv : post.nodes[s.n].srv[b].id = s.s
+                \/ /\ \E b \in DOMAIN pre.nodes[s.n].srv : pre.nodes[s.n].srv[b].id = s.s
+                   /\ \E b \in (a+1)..Len(post.steps) : post.steps[b].k = "kill" /\ post.steps[b].n = s.n
+                                                          /\ post.steps[b].s = s.s)
     \cup Chk("C04.record-names-the-attached-server", \A a \in DOMAIN post.recs :
           LET r == post.recs[a]
           IN r.type \in {"service", "interrupted service"} /\ r.sid > 0 /\ r.n \in 1..NN(pre)
